@@ -211,7 +211,22 @@ def gen_libraries(rng, disk, keep, main=None):
         libs[main] = chosen or ["*.vhd"]
     if any(f in keep for f in l2_files) or rng.random() < 0.7:
         libs["lib2"] = ["l2/*.vhd"]
+    if rng.random() < 0.15:
+        libs[main] = libs[main] + ["np/*.vhd"]         # the directory of the "non-project" documents joins the project
     return libs
+
+
+def drop_from_config(cfg, disk, f):
+    """The configuration with file `f` taken out of every library (explicit lists instead of globs)."""
+    new = json.loads(json.dumps(cfg))
+    libs = {}
+    for name, pats in cfg["libraries"].items():
+        files = sorted(g for g in disk if g != f and any(fnmatch.fnmatchcase(g, p) and ("/" in g) == ("/" in p) for p in pats))
+        if files:
+            libs[name] = files
+    new["libraries"] = libs
+    new["third_party"] = [n for n in (cfg.get("third_party") or []) if n in libs]
+    return new
 
 
 def gen_third_party(rng, libs):
@@ -266,19 +281,55 @@ def gen_session(rng, name, steps_lo=3, steps_hi=25, full_p=0.15):
     sess = {"name": name, "nolint": rng.random() < 0.05, "rel": rng.random() < 0.6,
             "libs": "full" if rng.random() < full_p else "std", "files": dict(disk), "config": json.loads(json.dumps(cfg)), "steps": []}
     n = rng.randint(steps_lo, steps_hi)
-    kinds = rng.choices(["open", "open_np", "change", "config", "watched", "create", "rename", "delete"],
-                        weights=[16, 4, 34, 24, 3, 7, 6, 6], k=n)
-    reloads = [i for i, k in enumerate(kinds) if k in ("config", "create", "rename", "delete")]
-    last_reload = reloads[-1] if reloads else -1
+    kinds = rng.choices(["open", "open_np", "change", "config", "watched", "create", "rename", "delete", "leave"],
+                        weights=[16, 5, 34, 24, 3, 7, 6, 6, 5], k=n)
     opened = {}           # rel -> current text (insertion ordered)
     counter = 0
-    # files the server has ever loaded as project members keep a (library-less) entry when they are excluded later;
-    # opening such a file is the same regime as a non-project document before a reload (outside the claim)
-    ever_member = {f for f in disk if member(cfg, f)}
-    for i, kind in enumerate(kinds):
-        ever_member |= {f for f in disk if member(cfg, f)}
-        if kind == "open_np" and i < last_reload:
+    target = None
+    pending = []          # step kinds queued by a life cycle (leave the project, edit while outside, come back)
+    i = -1
+    while i + 1 < len(kinds) or pending:
+        target = None
+        if pending:
+            kind = pending.pop(0)
+        else:
+            i += 1
+            kind = kinds[i]
+        if kind == "leave":
+            # life cycle of an open document: it leaves the project by a configuration rewrite (or is a non-project
+            # document hit by a reload), is edited while outside, and is mapped to a library again later
+            cands = [f for f in sorted(opened) if member(cfg, f)]
+            if cands and not (cfg.get("broken") or cfg.get("missing")):
+                f = rng.choice(cands)
+                new = drop_from_config(cfg, disk, f) if rng.random() < 0.8 else dict(json.loads(json.dumps(cfg)), broken=True)
+                cfg = new
+                sess["steps"].append({"op": "config", "config": json.loads(json.dumps(cfg)), "events": [[CFG, 2]]})
+                pending = [("change_of", f)] * rng.choice([1, 1, 2]) + rng.choice([["config_back"], ["config_back"], ["change", "config_back"]])
+                continue
             kind = "open"
+        if isinstance(kind, tuple) or kind == "change":
+            target = kind[1] if isinstance(kind, tuple) else None
+            kind = "change"
+        if kind == "config_back":
+            new = json.loads(json.dumps(cfg))
+            new.pop("broken", None)
+            new.pop("missing", None)
+            new["libraries"] = gen_libraries(rng, disk, set(opened), main=rng.choice(["lib", "mylib"]))
+            if rng.random() < 0.5:          # the documents may come back into another library
+                for f in sorted(opened):
+                    if "/" not in f and new["libraries"].get("lib", new["libraries"].get("mylib")) != ["*.vhd"] and rng.random() < 0.3:
+                        for pats in new["libraries"].values():
+                            if f in pats and len(pats) > 1:
+                                pats.remove(f)
+                                new["libraries"].setdefault("extra", []).append(f)
+                                break
+            if any(f.startswith("np/") for f in opened) and not any("np/*.vhd" in p for p in new["libraries"].values()):
+                k = sorted(new["libraries"])[0]
+                new["libraries"][k] = new["libraries"][k] + ["np/*.vhd"]
+            new["third_party"] = gen_third_party(rng, new["libraries"])
+            cfg = new
+            sess["steps"].append({"op": "config", "config": json.loads(json.dumps(cfg)), "events": [[CFG, rng.choice([2, 2, 1])]]})
+            continue
         if kind == "open":
             cands = [f for f in sorted(disk) if f not in opened and member(cfg, f)]
             if not cands:
@@ -290,19 +341,23 @@ def gen_session(rng, name, steps_lo=3, steps_hi=25, full_p=0.15):
                 sess["steps"].append({"op": "open", "path": f, "text": text})
                 continue
         if kind == "open_np":
-            cands = [f for f in sorted(disk) if f not in opened and not member(cfg, f) and f not in ever_member]
+            # a document outside the project (never seen by the server, or a former member): analysed in an anonymous
+            # library until the next reload, edited meanwhile, possibly added to the configuration later
+            cands = [f for f in sorted(disk) if f not in opened and not member(cfg, f)]
             if not cands:
                 kind = "change"
             else:
                 f = rng.choice(cands)
                 opened[f] = disk[f]
                 sess["steps"].append({"op": "open", "path": f, "text": disk[f]})
+                if not pending and rng.random() < 0.6:
+                    pending = [("change_of", f)] + rng.choice([[], ["config"]]) + [("change_of", f), "config_back"]
                 continue
         if kind == "change":
             if not opened:
                 kind = "config"
             else:
-                f = rng.choice(sorted(opened))
+                f = target if target in opened else rng.choice(sorted(opened))
                 old = opened[f]
                 new = variant(rng, family[f], family.get(("tag", f)))
                 mode = rng.choice(["full", "ranged", "ranged", "two"])
@@ -317,14 +372,17 @@ def gen_session(rng, name, steps_lo=3, steps_hi=25, full_p=0.15):
                 sess["steps"].append({"op": "change", "path": f, "changes": changes, "result": new})
                 continue
         if kind == "config":
-            members_open = {f for f in opened if member(cfg, f)}
+            # open documents usually stay in the project; sometimes the rewrite drops them (they are edited outside and
+            # may come back later)
+            members_open = {f for f in opened if member(cfg, f)} if rng.random() < 0.7 else set()
+            opened_guard = opened if rng.random() < 0.7 else {}
             r = rng.random()
             new = json.loads(json.dumps(cfg))
             new.pop("broken", None)
             new.pop("missing", None)
-            if r < 0.04 and not opened:
+            if r < 0.04 and not opened_guard:
                 new["broken"] = True
-            elif r < 0.12 and not opened and not cfg.get("missing"):
+            elif r < 0.12 and not opened_guard and not cfg.get("missing"):
                 new["missing"] = True
             elif r < 0.50 and not (cfg.get("broken") or cfg.get("missing")):
                 new["lint"] = gen_lint(rng)
@@ -457,8 +515,22 @@ def run_session(sess, binpath, wsdir, codes, stop_at=None):
     write_config(root, shadow, cfg)
     rel, nolint = sess["rel"], sess["nolint"]
     outside = bool(sess.get("outside_claim"))
-    out = {"points": [], "died": None, "source_bad": None}
-    opens = []          # [(abs path, text)] in didOpen order
+    out = {"points": [], "died": None, "source_bad": None, "outside_edits": 0, "reentries_after_outside_edit": 0}
+    edited_outside = set()
+    opens = []          # [(abs path, text)] in didOpen order: the client's documents with their CURRENT text
+    # What the server does with an open document depends on the project: a member of the configuration is analysed in
+    # its libraries with the document text; a document the server had never seen and that is in no library is put
+    # into an anonymous library until the next reload (`anon`); any other document outside the configuration has no
+    # library and is not analysed (its text is still tracked and used when it is mapped to a library again).  The
+    # fresh server is given the documents of the first two kinds, with the client's current text.
+    disk = set(sess["files"])
+    known = {f for f in disk if member(cfg, f)}
+    anon = set()
+
+    def replayed():
+        return [(p, t) for p, t in opens
+                if member(cfg, os.path.relpath(p, root)) or os.path.relpath(p, root) in anon]
+
     view = {}
     # the installed libraries: the full set of /repo/vhdl_libraries (std + ieee, ~0.3 s to load per server start) or
     # std only (the generated files use nothing else)
@@ -480,8 +552,8 @@ def run_session(sess, binpath, wsdir, codes, stop_at=None):
         # raw current diagnostics: a second fresh server without the [lint] table; when nothing is hidden and
         # related information is on, the fresh view itself carries them (severities are ignored by the encoder)
         need_raw = not nolint and not (rel and 0 not in rec["sev"])
-        f1 = pool.submit(fresh_view, binpath, root, list(opens), rel, nolint, libs)
-        f2 = pool.submit(fresh_view, binpath, shadow, list(opens), True, False, libs) if need_raw else None
+        f1 = pool.submit(fresh_view, binpath, root, replayed(), rel, nolint, libs)
+        f2 = pool.submit(fresh_view, binpath, shadow, replayed(), True, False, libs) if need_raw else None
         fv = f1.result()
         rec["fresh"] = lsp.canon_view(fv)
         rec["raw"] = f2.result() if f2 else ({} if nolint else fv)
@@ -501,6 +573,9 @@ def run_session(sess, binpath, wsdir, codes, stop_at=None):
                 live.notify("textDocument/didOpen",
                             {"textDocument": {"uri": lsp.uri(p), "languageId": "vhdl", "version": 0, "text": step["text"]}})
                 opens.append((p, step["text"]))
+                if not member(cfg, step["path"]) and step["path"] not in known:
+                    anon.add(step["path"])
+                known.add(step["path"])
             elif op == "change":
                 p = os.path.join(root, step["path"])
                 chs = []
@@ -514,6 +589,9 @@ def run_session(sess, binpath, wsdir, codes, stop_at=None):
                 live.notify("textDocument/didChange",
                             {"textDocument": {"uri": lsp.uri(p), "version": i + 1}, "contentChanges": chs})
                 opens[:] = [(q, step["result"] if q == p else t) for q, t in opens]
+                if not member(cfg, step["path"]) and step["path"] not in anon:
+                    out["outside_edits"] += 1
+                    edited_outside.add(step["path"])
             elif op == "config":
                 cfg = step["config"]
                 write_config(root, shadow, cfg)
@@ -530,20 +608,30 @@ def run_session(sess, binpath, wsdir, codes, stop_at=None):
                 publishes = False
             elif op == "create":
                 write_file(os.path.join(root, step["path"]), step["text"])
+                disk.add(step["path"])
                 live.notify("workspace/didCreateFiles", {"files": [{"uri": lsp.uri(os.path.join(root, step["path"]))}]})
                 reload = True
             elif op == "rename":
                 os.rename(os.path.join(root, step["from"]), os.path.join(root, step["to"]))
+                disk.discard(step["from"])
+                disk.add(step["to"])
                 live.notify("workspace/didRenameFiles",
                             {"files": [{"oldUri": lsp.uri(os.path.join(root, step["from"])),
                                         "newUri": lsp.uri(os.path.join(root, step["to"]))}]})
                 reload = True
             elif op == "delete":
                 os.remove(os.path.join(root, step["path"]))
+                disk.discard(step["path"])
                 live.notify("workspace/didDeleteFiles", {"files": [{"uri": lsp.uri(os.path.join(root, step["path"]))}]})
                 reload = True
             else:
                 raise ValueError("unknown op %r" % op)
+            if reload:
+                back = {f for f in edited_outside if member(cfg, f)}
+                out["reentries_after_outside_edit"] += len(back)
+                edited_outside -= back
+                anon.clear()
+                known |= {f for f in disk if member(cfg, f)}
             quiescent(i, step, live.sync(), publishes, reload)
         live.shutdown()
     except lsp.ServerDied as ex:
@@ -980,6 +1068,8 @@ def run_check(res, tier, replay, d):
     res.coverage["lint_values_written"] = lint_values
     res.coverage["watched_file_events"] = watched_types
     res.coverage["sessions_started_without_config"] = started_without_config
+    res.coverage["edits_of_documents_outside_any_library"] = sum(runs[ix]["outside_edits"] for ix in runs)
+    res.coverage["documents_mapped_to_a_library_again_after_such_edits"] = sum(runs[ix]["reentries_after_outside_edit"] for ix in runs)
     res.coverage["outside_claim"] = outside
     res.coverage["traces_validated_against_impl"] = len(predicted)
     res.coverage["exhaustive"] = False
@@ -998,7 +1088,9 @@ def run_check(res, tier, replay, d):
         "is_third_party toggled / a file moved to a library of its own, also as reloads that add no file / broken or missing "
         "vhdl_ls.toml, 12% of the servers start without vhdl_ls.toml), every FileChangeType for the configuration file "
         "(Created after a start without it, Deleted, Changed, Created alone, Deleted+Created in one notification), "
-        "mixed batches with events of all three types for other files, 5% --no-lint, 40% clients without relatedInformation.  A session is non-trivial when the client "
+        "mixed batches with events of all three types for other files; open documents leave the project by a configuration "
+        "rewrite or are opened outside it, are edited (ranged / full text) while in no library and are mapped to the same or "
+        "another library again, 5% --no-lint, 40% clients without relatedInformation.  A session is non-trivial when the client "
         "view changed at two or more quiescent points; distinct by hash of the session")
     res.coverage["trusted_base"] = TRUSTED_BASE_COMMON + [
         "python LSP client vlib/lsp.py; `sync` barrier relies on the server handling messages in order",
@@ -1008,9 +1100,12 @@ def run_check(res, tier, replay, d):
     ]
     res.coverage["partial"] = False
     res.assumptions = [
-        "sessions stay where session state = directory state + open documents: files are renamed/deleted/excluded only while "
-        "not open; documents outside the project are opened only after the last reload (a reload drops their anonymous "
-        "library: outside the claim, see outside_claim); existing files are never modified on disk behind the server's back",
+        "session state = directory state + the client's documents with their current text (plain splice of every didChange, "
+        "whatever the project membership of the document).  The fresh server is given the open documents that are members of "
+        "the current configuration, and the never-seen documents opened since the last reload (anonymous library); an open "
+        "document that is in no library is not analysed by design (coordinator decision on D2/D3) and is therefore not "
+        "re-opened in the fresh server, but its edits must show once it is mapped to a library again.  Files are renamed / "
+        "deleted only while not open; existing files are never modified on disk behind the server's back",
         "diagnostics of one file are compared as multisets (their order follows hash-map iteration inside the analysis); "
         "files with [] equal files never mentioned",
     ]
